@@ -719,7 +719,7 @@ class ReadName(Contract):
     the k-th one (with `\\` mapped to `/`, the format's separator) - each name starts exactly where the previous one ended"""
 
     target = AI + "FilesInfo._read_name"
-    props = ("C06", "C17", "C08")
+    props = ("C06", "C17", "C08", "C01")
     replayable = False
 
     def setup(self, c):
